@@ -32,6 +32,9 @@ CLAIMED = {
  "C10": ("deterministic simulation: real ServerPool.handle with Retry/CircuitBreaker wrappers and pool time-out under concurrent clients on the virtual clock; scripted per-attempt transport outcomes, client cancellation at drawn instants (incl. exact back-off boundaries); second variant with the Proxy's real http.Transport over the simulated network against a stalling/resetting backend",
          "Seeded search over retry policies x per-attempt outcome scripts x cancellation instants x time-outs x buffered/stream bodies x interleavings; attempts, their spacing, the final outcome and the breaker's window totals are checked against the statement, with bounded liveness (408 within the bound of simulated time) on the network variant.",
          "DESIGN.md §6 C10", "fnSendRequest is scripted in 92% of runs; 8% use the real transport over simnet."),
+ "C11": ("deterministic simulation: requests kept in flight (parked at gates inside handlers/filters) while reload / Inherit / apply / delete run on the real mux, Pipeline + 12 filter kinds and TrafficController; quiescent twins per generation as oracle",
+         "Seeded search over chains of old/new specs x request mixes x interleavings of request handling with mux.reload, Pipeline.Inherit (which closes the previous generation) and TrafficController create/apply/update/delete; every answer must equal, in all observed fields at once, the answer of a quiescent twin of one generation that was legitimately in effect during the request; no panic on the old generation; identical re-apply invokes no lifecycle call; untouched objects stay available.",
+         "DESIGN.md §6 C11", "twins are the same code at rest; service discovery, tracing, HTTPS and filter kinds needing a cluster or remote endpoint are not generated."),
  "C12": ("deterministic simulation: request histories from concurrent clients against twin real muxes (cacheSize n vs 0), including colliding keys and constant eviction",
          "Seeded search over rule sets x request sequences x cache sizes x client interleavings; each answer of the cached mux must equal the cache-less twin's answer.",
          "DESIGN.md §6 C12", "the oracle is the same routing code without cache."),
